@@ -672,6 +672,9 @@ class SyncObj(object):
                     logger.error(
                         'request to switch to unsupported code version (self version: %d, requested version: %d)' %
                         (self.__selfCodeVersion, e.ver))
+                    # can not go past this entry until the code is updated: applying the
+                    # following entries would execute them at the wrong log position
+                    break
 
             if not self.__conf.appendEntriesUseBatch:
                 needSendAppendEntries = True
